@@ -977,7 +977,7 @@ func r2(w *World, r *Report) {
 	if ng != nil {
 		ok := false
 		for _, fs := range w.fieldStores(ng) {
-			if fs.Field.Name() == "GovParams" && strings.Contains(w.Canon(fs.Val), ".Get(ledger.ToLedgerKey(bytes.ZeroBytes(32)))#0") {
+			if fs.Field.Name() == "GovParams" && strings.Contains(w.CanonDeep(fs.Val), ".Get("+w.govParamsKeyCanon()+")#0") {
 				ok = true
 			}
 		}
@@ -991,18 +991,64 @@ func r2(w *World, r *Report) {
 	gc := needFn(r, "R-2", w, fref{"ctrlers/gov", "GovCtrler", "Commit"})
 	if gc != nil {
 		st := w.findStore(gc, "recv.GovParams", "recv.newGovParams")
-		r.Check(st != nil && w.condCanonHolds(st.Block(), "(recv.newGovParams != nil)", 1), "R-2", "GovCtrler.Commit:installs", "Commit installs the handed-over parameters", "GovCtrler.Commit does not install the handed-over parameters", fnSite(w, gc))
+		// on every successful path on which parameters were handed over (the ledger record
+		// a restart loads is written wherever they are handed over: applyProposals)
+		installed := st != nil && w.condCanonHolds(st.Block(), "(recv.newGovParams != nil)", 1)
+		if installed {
+			ev := func(in ssa.Instruction) string {
+				if in == ssa.Instruction(st) {
+					return "INSTALL"
+				}
+				return ""
+			}
+			fe := w.newFactEval(nil, AR(`^recv\.newGovParams$`, "!=", "^nil$"))
+			saved := w.branchMarkers
+			w.branchMarkers = false
+			ps, complete := w.enumPaths(gc, fe.eval, ev, 4000)
+			w.branchMarkers = saved
+			nOK := 0
+			for _, p := range ps {
+				if p.Term != "ok" && p.Term != "unknown" {
+					continue
+				}
+				nOK++
+				if len(p.Events) != 1 {
+					installed = false
+				}
+			}
+			installed = installed && complete && len(fe.used) > 0 && nOK > 0
+		}
+		r.Check(installed, "R-2", "GovCtrler.Commit:installs", "Commit installs the handed-over parameters on every successful path", "GovCtrler.Commit does not install the handed-over parameters on every successful path (the running node keeps other parameters than the record a restart loads)", fnSite(w, gc))
 	}
 	gk := needFn(r, "R-2", w, fref{pkgCT, "GovParams", "Key"})
 	if gk != nil {
-		ok := false
-		for _, b := range gk.Blocks {
-			if ret, isR := lastInstr(b).(*ssa.Return); isR {
-				ok = w.Canon(ret.Results[0]) == "ledger.ToLedgerKey(bytes.ZeroBytes(32))"
-			}
-		}
+		// one constant key on every path (that the constructor reads it is checked above)
+		ok := w.govParamsKeyCanon() != "?"
 		r.Check(ok, "R-2", "GovParams.Key", "the parameters are stored under the key the constructor reads", "GovParams.Key() is not the key NewGovCtrler reads", fnSite(w, gk))
 	}
+}
+
+// govParamsKeyCanon: the one constant key GovParams.Key() returns on every path
+// (helpers looked through), or "?" if there is no such key.
+func (w *World) govParamsKeyCanon() string {
+	gk := w.Method(pkgCT, "GovParams", "Key")
+	if gk == nil || gk.Blocks == nil {
+		return "?"
+	}
+	out := ""
+	for _, b := range gk.Blocks {
+		if ret, isR := lastInstr(b).(*ssa.Return); isR && b != gk.Recover && len(ret.Results) == 1 {
+			c := w.CanonDeep(retResult(ret, 0))
+			if out != "" && out != c {
+				return "?"
+			}
+			out = c
+		}
+	}
+	if out == "" || strings.Contains(out, "recv") {
+		return "?"
+	}
+	return out
 }
 
 func mustRe(s string) *regexp.Regexp { return regexp.MustCompile(s) }
@@ -1082,7 +1128,8 @@ func (w *World) durableStepsOnPaths(fn *ssa.Function) ([]durableStep, string) {
 		return f()
 	}
 	ident := func(in ssa.Instruction, rcv ssa.Value) string {
-		s := ownFrame(func() string { return w.Canon(rcv) })
+		// accessors of the owner's fields are looked through (the store keeps its name)
+		s := ownFrame(func() string { return w.CanonDeep(rcv) })
 		owner := ownerOf(in.Parent())
 		if strings.HasPrefix(s, "recv.") {
 			return owner + "." + strings.TrimPrefix(s, "recv.")
@@ -1529,6 +1576,12 @@ func checkC10(w *World, r *Report) {
 			r.Undecided("U-6", "overlay-writes", "fewer than 2 writes to the delegatee ledger's overlay found in consensus context")
 		}
 	}
+	// U-7: "rebuilt from the committed delegatee tree" holds only if the tree's
+	// iterator reads the tree alone: an iterator that also consults an overlay (the
+	// CheckTx overlay is fed by the mempool) makes the candidates node-local (C18 L-2)
+	if r.importTreeReadOnly(w, "U-7") < 2 {
+		r.Undecided("U-7", "tree-iterators", "the committed-tree readers of the ledger package were not found")
+	}
 	r.Floor("U-1", 5, "selection")
 	r.Floor("U-2", 9, "merge-diff decision table")
 	r.Floor("U-3", 3, "hand-over to consensus")
@@ -1538,6 +1591,7 @@ func checkC10(w *World, r *Report) {
 func u1(w *World, r *Report) {
 	bb := needFn(r, "U-1", w, fref{pkgStake, "StakeCtrler", "BeginBlock"})
 	var cl *ssa.Function
+	var localList *ssa.FreeVar // the callback's name of a list local to the rebuilding function
 	if bb != nil {
 		// the code that rebuilds the candidates may sit in BeginBlock or in a helper it
 		// calls unconditionally: locate the scan of the committed delegatee tree
@@ -1570,9 +1624,50 @@ func u1(w *World, r *Report) {
 				}
 			}
 			ok = reset && srt != nil && instrDominates(it, srt) && uncond
+			var mc *ssa.MakeClosure
 			if len(it.Common().Args) > 0 {
-				if mc, isMC := it.Common().Args[len(it.Common().Args)-1].(*ssa.MakeClosure); isMC {
+				if m, isMC := it.Common().Args[len(it.Common().Args)-1].(*ssa.MakeClosure); isMC {
+					mc = m
 					cl, _ = mc.Fn.(*ssa.Function)
+				}
+			}
+			if !ok && uncond && mc != nil && cl != nil {
+				// the same rebuild through a list of the helper's own: a fresh (nil) local
+				// that only the scan's callback fills, sorted by power and then published as
+				// the candidate list
+				for i, bnd := range mc.Bindings {
+					al, isA := bnd.(*ssa.Alloc)
+					if !isA || i >= len(cl.FreeVars) {
+						continue
+					}
+					written := false
+					for _, b := range host.Blocks {
+						for _, in := range b.Instrs {
+							if st, isS := in.(*ssa.Store); isS && st.Addr == ssa.Value(al) {
+								written = true
+							}
+						}
+					}
+					var pub *ssa.Store
+					for _, st := range w.storesTo(host, "recv.allDelegatees") {
+						if ld, isLd := st.Val.(*ssa.UnOp); isLd && ld.Op == token.MUL && ld.X == ssa.Value(al) && instrDominates(it, st) {
+							pub = st
+						}
+					}
+					var srt2 ssa.CallInstruction
+					for _, c := range w.callsTo(host, fref{"sort", "", "Sort"}) {
+						if w.sortArgType(c) != "PowerOrderDelegatees" || !instrDominates(it, c) {
+							continue
+						}
+						// sorted under its own name, or under the field once published (same array)
+						if a := w.Canon(c.Common().Args[0]); a == w.Canon(al) || (a == "recv.allDelegatees" && pub != nil && instrDominates(pub, c)) {
+							srt2 = c
+						}
+					}
+					if !written && pub != nil && srt2 != nil && len(w.storesTo(host, "recv.allDelegatees")) == 1 {
+						ok = true
+						localList = cl.FreeVars[i]
+					}
 				}
 			}
 		}
@@ -1581,8 +1676,12 @@ func u1(w *World, r *Report) {
 	if cl == nil {
 		r.Undecided("U-1", "BeginBlock$1", "candidate filter not found")
 	} else {
-		st := w.findStore(cl, "recv.allDelegatees", "append(recv.allDelegatees, [p0])")
-		ok := st != nil && w.condCanonHolds(st.Block(), "(p0.SelfPower >= types.AmountToPower(recv.govParams.MinValidatorStake()))", 1) && len(w.storesTo(cl, "recv.allDelegatees")) == 1
+		list := "recv.allDelegatees"
+		if localList != nil {
+			list = w.Canon(localList)
+		}
+		st := w.findStore(cl, list, "append("+list+", [p0])")
+		ok := st != nil && w.condCanonHolds(st.Block(), "(p0.SelfPower >= types.AmountToPower(recv.govParams.MinValidatorStake()))", 1) && len(w.storesTo(cl, list)) == 1
 		r.Check(ok, "U-1", "BeginBlock:eligibility", "a delegatee is a candidate iff its own stake meets the minimum validator stake", "the eligibility filter is not `SelfPower >= AmountToPower(MinValidatorStake())`", fnSite(w, cl))
 	}
 	sv := needFn(r, "U-1", w, fref{pkgStake, "", "selectValidators"})
